@@ -293,6 +293,9 @@ def conditions(tier):
             out.append(_mk_mr((2, 1, 2), 1 if mode == "hamming" else 2, "AY", mode, m))
         out.append(_mk_mr((1, 1, 1, 1), 1, "AY", mode, 1))
     out.append(_mk_mr((2, 2, 2), 2, "AY", "default", 1, budget=400))
+    # anagrams are inside the composition ball but not within one edit: candidates that must not take a max_returns slot
+    out.append(_mk_mr((2, 2, 2), 1, "AY", "custom", 1, budget=600))
+    out.append(_mk_mr((2, 2, 2), 1, "AY", "default", 1, budget=600))
     if tier == "thorough":
         out.append(_mk_cfg((2, 2, 1), 2, "ACY", budget=2400))
         out.append(_mk_cfg((2, 2, 2), 1, "AY", budget=2400))
